@@ -190,16 +190,77 @@ PanicExpand(pl) == UNION {UNION {{Case("Sprintf", Around(f), ts, <<>>) : f \in {
                                   \cup {Case("Sprint", <<>>, <<UInt(95)>> \o ts \o <<UStr(96)>>, <<>>)}
                                  : ts \in PanCtx(o)} : o \in PanObjs(pl)}
 
+\* ---- slice "errorf" (C15): HelperForErrorf with 0..3 %w directives and every operand class
+FwIdx1 == <<37, 91, 49, 93, 119>>   FwIdx2 == <<37, 91, 50, 93, 119>>   F5w == <<37, 53, 119>>
+FplusW == <<37, 43, 119>>           FsharpW == <<37, 35, 119>>          Fcolon == <<58>>
+ErrDirs  == {Fw, Fv, Fd, FwIdx1, FwIdx2, F5w, FplusW, FsharpW}
+ErrDirs2 == {Fw, Fv, FwIdx1, F5w}
+ErrFormats == ErrDirs \cup {x \o Fcolon \o y : x \in ErrDirs, y \in ErrDirs}
+              \cup {x \o Fcolon \o y \o Fcolon \o z : x \in {Fw, Fv}, y \in {Fw, Fv}, z \in {Fw, Fv}}
+QErrFormats == ErrDirs2 \cup {x \o Fcolon \o y : x \in ErrDirs2, y \in ErrDirs2} \cup {Fw \o Fw \o Fw, FsharpW, FplusW}
+ErrOperand(kind, i) ==
+  CASE kind = "er"     -> ErObj(i)
+    [] kind = "erfm"   -> TObj(i, {"ER", "FM"}, <<>>, <<SWrite(P(i + 5))>>, P(i), <<>>)
+    [] kind = "ersf"   -> TObj(i, {"ER", "SF"}, <<SSafeString(P(600 + i)), SUnsafeString(P(700 + i))>>, <<>>, P(i), <<>>)
+    [] kind = "safe"   -> TSafe(i, ErObj(i + 1))
+    [] kind = "unsafe" -> TUnsafe(i, ErObj(i + 1))
+    [] kind = "ernil"  -> TObj(i, {"ER", "NILP"}, <<>>, <<>>, <<>>, <<>>)
+    [] kind = "nil"    -> TNil(i)
+    [] kind = "int"    -> UInt(i)
+    [] kind = "str"    -> UStr(i)
+    [] kind = "st"     -> StObj(i)
+    [] kind = "erpan"  -> TObj(i, {"ER"}, <<>>, <<>>, <<>>, <<TStr(i + 1, P(i + 1))>>)
+ErrKinds  == {"er", "erfm", "ersf", "safe", "unsafe", "ernil", "nil", "int", "str", "st", "erpan"}
+QErrKinds == {"er", "erfm", "safe", "unsafe", "nil", "int", "str"}
+ErrRoots == LET ks == IF Slice = "errorf" THEN ErrKinds ELSE QErrKinds IN
+            {<<>>} \cup {<<ErrOperand(k1, 10)>> : k1 \in ks} \cup {<<ErrOperand(k1, 10), ErrOperand(k2, 20)>> : k1 \in ks, k2 \in ks}
+ErrExpand(ts) == {Case("Errorf", f, ts, <<>>) : f \in (IF Slice = "errorf" THEN ErrFormats ELSE QErrFormats)}
+
+\* ---- slice "hook" (C17): error operands of every capability mix in every position, with a hook installed
+HookErr(kind, i) ==
+  CASE kind = "er"    -> ErObj(i)
+    [] kind = "erst"  -> TObj(i, {"ER", "ST"}, <<>>, <<>>, P(i), <<>>)
+    [] kind = "erfm"  -> TObj(i, {"ER", "FM"}, <<>>, <<SWrite(P(i + 5))>>, P(i), <<>>)
+    [] kind = "ersf"  -> TObj(i, {"ER", "SF"}, <<SSafeString(P(600 + i)), SUnsafeString(P(700 + i))>>, <<>>, P(i), <<>>)
+    [] kind = "ersm"  -> TObj(i, {"ER", "SM"}, <<>>, <<>>, P(i), <<>>)
+    [] kind = "ergs"  -> TObj(i, {"ER", "GS"}, <<>>, <<>>, P(i), <<>>)
+    [] kind = "ersv"  -> TObj(i, {"ER", "SV"}, <<>>, <<>>, P(i), <<>>)
+    [] kind = "erreg" -> TObj(i, {"ER", "REG"}, <<>>, <<>>, P(i), <<>>)
+    [] kind = "ernil" -> TObj(i, {"ER", "NILP"}, <<>>, <<>>, <<>>, <<>>)
+    [] kind = "erpan" -> TObj(i, {"ER"}, <<>>, <<>>, <<>>, <<TStr(i + 1, P(i + 1))>>)
+    [] kind = "st"    -> StObj(i)
+HookKinds == {"er", "erst", "erfm", "ersf", "ersm", "ergs", "ersv", "erreg", "ernil", "erpan", "st"}
+HookPos(pos, e) ==
+  CASE pos = "top"     -> <<e>>
+    [] pos = "safe"    -> <<TSafe(40, e)>>
+    [] pos = "unsafe"  -> <<TUnsafe(40, e)>>
+    [] pos = "slice"   -> <<TSlice(40, <<UInt(41), e>>)>>
+    [] pos = "mapval"  -> <<TMap(40, <<TInt(41, 1), e>>)>>
+    [] pos = "mapkey"  -> <<TMap(40, <<e, UInt(41)>>)>>
+    [] pos = "fieldE"  -> <<TStruct(40, <<e, UInt(41)>>, <<FALSE, FALSE>>)>>
+    [] pos = "fieldu"  -> <<TStruct(40, <<UInt(41), e>>, <<FALSE, TRUE>>)>>
+    [] pos = "ptr"     -> <<TPtrTo(42, TStruct(40, <<e>>, <<FALSE>>))>>
+    [] pos = "inUnsafe" -> <<TUnsafe(43, TSlice(40, <<e>>))>>
+HookPositions == {"top", "safe", "unsafe", "slice", "mapval", "mapkey", "fieldE", "fieldu", "ptr", "inUnsafe"}
+HookRoots == HookKinds \X HookPositions
+HookExpand(r) == LET ts == HookPos(r[2], HookErr(r[1], 10)) IN
+                 {Case("Sprintf", Around(f), ts, <<>>) : f \in {Fv, Fs, Fd, Fq, Fx, FplusV, FsharpV, F6v}}
+                 \cup {Case("Sprint", <<>>, ts, <<>>), Case("Errorf", Around(Fw), ts, <<>>), Case("Errorf", Fw \o Fw, ts \o ts, <<>>)}
+
 Roots     == CASE Slice = "smoke" -> SmokeRoots
                [] Slice \in {"cls", "qcls"} -> ClsRoots
                [] Slice = "wrap" -> WrapRoots
                [] Slice \in {"bytes", "qbytes"} -> BytesRoots
                [] Slice = "panic" -> PanicRoots
+               [] Slice \in {"errorf", "qerrorf"} -> ErrRoots
+               [] Slice = "hook" -> HookRoots
 Expand(r) == CASE Slice = "smoke" -> SmokeExpand(r)
                [] Slice \in {"cls", "qcls"} -> ClsExpand(r)
                [] Slice = "wrap" -> WrapExpand(r)
                [] Slice \in {"bytes", "qbytes"} -> BytesExpand(r)
                [] Slice = "panic" -> PanicExpand(r)
+               [] Slice \in {"errorf", "qerrorf"} -> ErrExpand(r)
+               [] Slice = "hook" -> HookExpand(r)
 
 ---------------------------------------------------------------------------
 VARIABLE root
@@ -276,6 +337,39 @@ C11Holds(k, r) ==
      ELSE LET s == Strip(Out(r)) IN
           k.e = "Sprintf" => (HasPrefix(s, <<A, 32>>) /\ HasSuffix(s, <<32, A>>))
 
+\* C15 on the slice "errorf"
+RECURSIVE CountW(_)
+CountW(f) == IF f = <<>> THEN 0 ELSE (IF Head(f) = VW THEN 1 ELSE 0) + CountW(Tail(f))
+HoldsError(t) == IsError(t) \/ (t.k \in {"safe", "unsafe"} /\ IsError(t.xs[1]))
+ErrIdOf(t)    == IF t.k \in {"safe", "unsafe"} THEN t.xs[1].id ELSE t.id
+\* the operand the single %w directive is applied to, 0 if it is missing / out of range
+WOperand(k) == LET its == ParseFormat(k.f, ArgInfo(k.ts))
+                   ws  == SelectSeq(its, LAMBDA it : it.t = "Arg" /\ it.v = VW)
+               IN IF Len(ws) = 1 THEN ws[1].a + 1 ELSE 0
+C15Expected(k) == IF CountW(k.f) = 1 /\ WOperand(k) # 0 /\ HoldsError(k.ts[WOperand(k)])
+                  THEN ErrIdOf(k.ts[WOperand(k)]) ELSE 0
+\* F4 (known finding): with several %w, a surplus %w on an operand that never reaches handleMethods
+\* (basic kinds, nil, MISSING, BADINDEX) does not disable the capture
+F4Class(k, r) == CountW(k.f) >= 2 /\ r.wrappedErr # 0
+C15Holds(k, r) == r.wrappedErr = C15Expected(k) \/ F4Class(k, r)
+
+\* C17 on the slice "hook": the hook renders exactly the error operands the statement names
+HookCalls(r) == SelectSeq(r.calls, LAMBDA x : x.m = "Hook")
+C17Holds(k, r) ==
+  LET e == HookErr(root[1], 10)
+      dispatched == /\ HookKind # "none"
+                    /\ IsError(e) /\ "SF" \notin e.caps /\ "SM" \notin e.caps /\ "NILP" \notin e.caps
+                    /\ root[2] \notin {"unsafe", "inUnsafe", "fieldu"}
+                    \* %w on an operand that is not itself the error is a bad verb, whose inner rendering
+                    \* (erroring) involves no method dispatch
+                    /\ (k.e = "Errorf" => root[2] \in {"top", "safe"})
+      hc == HookCalls(r)
+  IN IF dispatched
+     THEN /\ Len(hc) >= 1 /\ \A i \in 1..Len(hc) : hc[i].id = e.id
+          \* ... and the error's own methods render nothing unless the hook asks for them
+          /\ \A i \in 1..Len(r.calls) : r.calls[i].m \in {"Hook", "Error"}
+     ELSE \A i \in 1..Len(hc) : FALSE
+
 (***************************************************************************)
 (* ONE zero-arity definition refers to the printer operators: TLC's        *)
 (* start-up level analysis costs several seconds for each such definition. *)
@@ -293,6 +387,8 @@ Check == lvl = 1 =>
   /\ Holds("C05", (ok /\ Slice \in {"cls", "qcls"}) => C05Holds(c, r))
   /\ Holds("C06", (ok /\ Slice = "wrap") => C06Holds(c, r))
   /\ Holds("C11", (Slice = "panic") => C11Holds(c, r))
+  /\ Holds("C15", (ok /\ Slice \in {"errorf", "qerrorf"}) => C15Holds(c, r))
+  /\ Holds("C17", (ok /\ Slice = "hook") => C17Holds(c, r))
   /\ (EmitOn => PrintT(ToJson([c |-> c, exc |-> ~ok, out |-> IF ok THEN Out(r) ELSE <<>>, rt |-> r.rt,
                                 calls |-> r.calls, werr |-> r.wrappedErr])))
 =============================================================================
